@@ -315,6 +315,24 @@ func c12FindElement(pj *simdjson.ParsedJson, root *ref.Node, maxPath int) (what,
 	return rec(0)
 }
 
+type c12KeptT struct {
+	reuse    *simdjson.ParsedJson
+	m        map[string]interface{}
+	names    []string
+	rendered string
+	prevText []byte
+}
+
+var c12Kept = map[bool]*c12KeptT{}
+
+func c12RenderKept(m map[string]interface{}, names []string) string {
+	n, err := fromInterface(m)
+	if err != nil {
+		return "unrenderable: " + err.Error()
+	}
+	return n.RenderLooseSorted() + " names=" + strings.Join(names, "\x00")
+}
+
 func c12Doc(w *W, text []byte, maxPath int) {
 	d, v := ref.Parse(text)
 	if v != ref.Valid {
@@ -325,11 +343,44 @@ func c12Doc(w *W, text []byte, maxPath int) {
 	w.Distinct(hashBytes([]byte(d.Render())))
 	for _, c := range strModes() {
 		w.cur.Set("C12-lookup", c.String(), text)
-		pj, err, p := doParse(c, text, nil, false)
+		// one long-lived ParsedJson per string mode is reused from document to document
+		k := c12Kept[c.Copy]
+		if k == nil {
+			k = &c12KeptT{}
+			c12Kept[c.Copy] = k
+		}
+		pj, err, p := doParse(c, append([]byte(nil), text...), k.reuse, false)
 		w.res.Validated++
 		if err != nil || p != "" {
 			w.Violate(Violation{Harness: "C12-lookup", Fingerprint: "C12/rejected", What: fmt.Sprint("valid document rejected: ", err, p), Case: append([]byte(nil), text...), Config: c.String()})
+			k.reuse, k.m = nil, nil
 			continue
+		}
+		k.reuse = pj
+		// what Map/Parse returned for the PREVIOUS document (Go strings and maps owned by the
+		// caller) must not have changed now that its ParsedJson holds another document
+		if k.m != nil {
+			if now := c12RenderKept(k.m, k.names); now != k.rendered {
+				w.Violate(Violation{Harness: "C12-lookup", Fingerprint: "C12/kept-result-changed", What: fmt.Sprintf("the map returned by Object.Map and the names returned by Object.Parse for the previous document (%s) changed after its ParsedJson was reused for this document: now %s, was %s", clip(string(k.prevText)), clip(now), clip(k.rendered)), Case: append([]byte(nil), text...), Config: c.String()})
+			}
+			k.m = nil
+		}
+		if d.K == ref.KObj {
+			if it, nerr := navigate(pj, vpath{0}, 0); nerr == nil {
+				if obj, oerr := it.Object(nil); oerr == nil {
+					if m, merr := obj.Map(nil); merr == nil {
+						var names []string
+						if obj2, o2 := it.Object(nil); o2 == nil {
+							if els, perr := obj2.Parse(nil); perr == nil {
+								for _, e := range els.Elements {
+									names = append(names, e.Name)
+								}
+							}
+						}
+						k.m, k.names, k.rendered, k.prevText = m, names, c12RenderKept(m, names), append([]byte(nil), text...)
+					}
+				}
+			}
 		}
 		bad, fp := "", ""
 		func() {
